@@ -83,7 +83,9 @@ func Arity(name string) (int, int, []int, bool) {
 }
 
 func typeFault(fn string, i int, v V, want string) *Fault {
-	return fault(CatType, "%s: argument %d is %s, want %s", fn, i+1, TypeName(v), want)
+	f := fault(CatType, "%s: argument %d is %s, want %s", fn, i+1, TypeName(v), want)
+	f.Arg = i + 1
+	return f
 }
 
 func (ev *evaluator) call(n *Node, cur V, env *Env) (V, *Fault) {
@@ -106,6 +108,21 @@ func (ev *evaluator) call(n *Node, cur V, env *Env) (V, *Fault) {
 				}
 				if args[i] != nil {
 					return nil, unspec("not_null: fault in an argument after the first non-null one")
+				}
+			}
+		}
+		// merge and zip check each argument's type as they go: a wrongly typed
+		// argument next to a faulting one may be reported instead
+		if name == "merge" || name == "zip" {
+			for i, k := range n.Kids {
+				v, f := ev.eval(k, cur, env)
+				if f != nil {
+					continue
+				}
+				_, isObj := v.(*Obj)
+				_, isArr := v.(*Arr)
+				if (name == "merge" && !isObj) || (name == "zip" && !isArr) {
+					ff = merge(ff, typeFault(name, i, v, "object/array"))
 				}
 			}
 		}
@@ -1003,4 +1020,15 @@ func findFn(name string, args []V) (V, *Fault) {
 		return nil, nil
 	}
 	return IntNum(int64(a)), nil
+}
+
+// applySafe calls apply and turns a panic of the model itself (probing with
+// null placeholders may hit type assertions) into "no verdict".
+func (ev *evaluator) applySafe(name string, args []V) (v V, f *Fault) {
+	defer func() {
+		if r := recover(); r != nil {
+			v, f = nil, nil
+		}
+	}()
+	return ev.apply(name, args)
 }
